@@ -426,6 +426,9 @@ impl Monitors {
                     } else {
                         let tm = self.tx.get_mut(&seq).unwrap();
                         tm.len = len;
+                        // the re-cut segment is a new segment under the old number: its retry cap counts from here
+                        // (the probe's own transmissions are capped by mtu_probe_max_retransmissions)
+                        tm.count = 0;
                         if self.popped_probe == Some(seq) {
                             self.popped_probe = None;
                         }
